@@ -35,7 +35,7 @@ try:
     cmd = ["cargo"] + (["+" + tc] if tc else []) + ["test", "--offline", "--test", demo]
     if "--miri" in sys.argv:
         # the demonstration needs the interpreter (undefined behaviour that does not crash natively)
-        cmd = ["cargo", "+nightly", "miri", "test", "--offline", "--test", demo]
+        cmd = ["cargo", "+nightly", "miri", "test", "--offline"] + (["--release"] if "--release" in sys.argv else []) + ["--test", demo]
         env["MIRIFLAGS"] = "-Zmiri-disable-isolation"
         env["CARGO_TARGET_DIR"] = "/tmp/confirm-target-miri"
     if feats:
